@@ -50,7 +50,11 @@ func init() {
 				fits = msat.Cmp(new(big.Int).SetUint64(c.receivable)) <= 0
 			}
 			var why string
+			var prem int64
+			fmt.Sscanf(out, "agreement %d", &prem)
 			switch {
+			case prem > c.limit:
+				why = "premium-above-limit"
 			case !c.allowNew:
 				why = "swaps-disabled"
 			case !chainOK:
